@@ -8,13 +8,13 @@ From Coq Require Import Permutation Sorted.
 Open Scope Z_scope.
 
 (* ---------------------------------------------------------------- 1. extended delta / length fields (translated code) *)
-(* the writer produces the RFC's nibble + extension bytes on 0..65803 ... *)
-Theorem C01_write_ext_is_rfc : forall v, 0 <= v < 65804 -> write_extended_field_value v = Ok (nibble v, extended v).
+(* the writer produces the RFC's nibble + extension bytes on the whole range the format can express, 0..65804 = 65535 + 269 ... *)
+Theorem C01_write_ext_is_rfc : forall v, 0 <= v <= EXT_MAX -> write_extended_field_value v = Ok (nibble v, extended v).
 Proof. exact write_ext_spec. Qed.
 Print Assumptions C01_write_ext_is_rfc.
-(* ... and raises ValueError everywhere else — including 65804 = 65535 + 269, which the RFC can express (see 7.) *)
-Theorem C01_write_ext_reject : forall v, v < 0 \/ 65804 <= v -> write_extended_field_value v = Raise ValueError.
-Proof. exact write_ext_reject. Qed.
+(* ... and raises ValueError everywhere else *)
+Theorem C01_write_ext_reject : forall v, v < 0 \/ EXT_MAX < v -> write_extended_field_value v = Raise ValueError.
+Proof. intros v H. apply write_ext_reject. unfold EXT_MAX in H. lia. Qed.
 Print Assumptions C01_write_ext_reject.
 (* the reader inverts the RFC encoding on the whole range 0..65804, whatever follows *)
 Theorem C01_read_ext_roundtrip : forall v rest, 0 <= v <= 65804 ->
@@ -67,7 +67,7 @@ Print Assumptions C01_option_list_stable_sort.
 
 (* ---------------------------------------------------------------- 4. serialising: exactly the RFC 7252 section 3 format *)
 (* wf m: type 0..3, code 0..255, 16-bit mid, token of 0..8 bytes, and — in wire order — every option value legal for the format
-   of its number, every delta and value length at most 65803 (the library's limit; the RFC's is 65804, see 7.) *)
+   of its number, every delta and value length at most 65804 (all that RFC 7252 section 3.1 can express) *)
 Theorem C01_encode_is_rfc : forall m, wf m = true -> Message_encode m = Ok (rfc_encode (canonical m)).
 Proof. exact encode_is_rfc. Qed.
 Print Assumptions C01_encode_is_rfc.
@@ -99,14 +99,11 @@ Print Assumptions C01_decode_wellformed.
 
 (* ---------------------------------------------------------------- 7. total parsing *)
 (* For EVERY byte string: Message.decode raises UnparsableMessage — never IndexError, struct.error, ValueError,
-   UnicodeDecodeError, nor does the loop run out of fuel S(len) — or returns a message m; and then either m is re-encoded to the
-   RFC format and parsed back to m itself, or (known finding C01:ext-field-65804-unencodable) m has an option delta or value
-   length of exactly 65804 and Message.encode raises ValueError. *)
+   UnicodeDecodeError, nor does the loop run out of fuel S(len) — or returns a message m that is re-encoded to the RFC format and
+   parsed back to m itself (this includes the lenient cases TKL 9..15 and marker-without-payload). *)
 Theorem C01_decode_total : forall data, bytes_ok data = true ->
   Message_decode data = Raise UnparsableMessage \/
-  exists m, Message_decode data = Ok m /\
-    ((ext_max m = false /\ Message_encode m = Ok (rfc_encode m) /\ Message_decode (rfc_encode m) = Ok m) \/
-     (ext_max m = true /\ Message_encode m = Raise ValueError)).
+  exists m, Message_decode data = Ok m /\ Message_encode m = Ok (rfc_encode m) /\ Message_decode (rfc_encode m) = Ok m.
 Proof. exact decode_total. Qed.
 Print Assumptions C01_decode_total.
 
@@ -117,24 +114,14 @@ Theorem C01_transports_catch_unparsable :
 Proof. exact decode_sites_catch. Qed.
 Print Assumptions C01_transports_catch_unparsable.
 
-(* the unconditional third sentence of the property ("parsed into a message that itself round-trips") is refuted by the model,
-   as it is by the code: 40 01 00 01 E0 FF FF parses, and the parsed message cannot be encoded *)
-Theorem C01_parsed_roundtrips_refuted : exists data m,
-  bytes_ok data = true /\ Message_decode data = Ok m /\ Message_encode m = Raise ValueError.
-Proof.
-  exists [64; 1; 0; 1; 224; 255; 255].
-  exists {| m_type := 0; m_code := 1; m_mid := 1; m_token := []; m_opt := [(65804, VOpaque [])]; m_payload := [] |}.
-  repeat split; vm_compute; reflexivity.
-Qed.
-Print Assumptions C01_parsed_roundtrips_refuted.
-(* and so is "any message the RFC format can carry is serialised": an empty opaque option number 65804 *)
-Theorem C01_encode_rfc_limit_refuted : exists m,
-  header_ok 8 m = true /\ options_ok EXT_MAX 0 (m_opt m) = true /\ Message_encode m = Raise ValueError.
-Proof.
-  exists {| m_type := 0; m_code := 1; m_mid := 1; m_token := []; m_opt := [(65804, VOpaque [])]; m_payload := [] |}.
-  repeat split; vm_compute; reflexivity.
-Qed.
-Print Assumptions C01_encode_rfc_limit_refuted.
+(* boundary (former finding C01:ext-field-65804-unencodable, fixed in 96b3185): a delta of exactly 65804 = E0 FF FF parses and
+   round-trips; a message whose option needs delta 65804 is serialised; 65805 is the first value the writer rejects *)
+Example C01_ext_max_boundary :
+  let m := {| m_type := 0; m_code := 1; m_mid := 1; m_token := []; m_opt := [(65804, VOpaque [])]; m_payload := [] |} in
+  wf m = true /\ Message_decode [64; 1; 0; 1; 224; 255; 255] = Ok m /\ Message_encode m = Ok [64; 1; 0; 1; 224; 255; 255] /\
+  write_extended_field_value 65804 = Ok (14, [255; 255]) /\ write_extended_field_value 65805 = Raise ValueError /\
+  Message_encode {| m_type := 0; m_code := 1; m_mid := 1; m_token := []; m_opt := [(65805, VOpaque [])]; m_payload := [] |} = Raise ValueError.
+Proof. cbv zeta. split; [vm_compute; reflexivity|]. repeat split; vm_compute; reflexivity. Qed.
 
 (* ---------------------------------------------------------------- non-vacuity *)
 Definition example_msg : msg :=
@@ -159,14 +146,10 @@ Proof.
   apply (OWF_option 0 11 11 [] [] 11 11 [116; 101; 109; 112; 101; 114; 97; 116; 117; 114; 101] [] [] []);
     [constructor; lia|constructor; lia|reflexivity|constructor].
 Qed.
-(* all three outcomes of C01_decode_total occur *)
+(* both outcomes of C01_decode_total occur, also for the leniently accepted datagrams *)
 Example C01_total_cases :
   Message_decode [64; 1; 0; 1; 177; 255] = Raise UnparsableMessage /\                       (* F1: string option FF *)
   Message_decode [64; 1] = Raise UnparsableMessage /\
   is_ok (Message_decode [79; 1; 0; 1; 170]) = true /\                                        (* TKL 15, one token byte *)
-  (exists m, Message_decode [64; 1; 0; 1; 224; 255; 255] = Ok m /\ ext_max m = true).
-Proof.
-  split; [vm_compute; reflexivity|]. split; [vm_compute; reflexivity|]. split; [vm_compute; reflexivity|].
-  exists {| m_type := 0; m_code := 1; m_mid := 1; m_token := []; m_opt := [(65804, VOpaque [])]; m_payload := [] |}.
-  split; vm_compute; reflexivity.
-Qed.
+  is_ok (Message_decode [64; 1; 0; 1; 255]) = true.                                          (* marker, empty payload *)
+Proof. repeat split; vm_compute; reflexivity. Qed.
